@@ -58,6 +58,7 @@ func runHistProp(o *Options, prop string, prof *Profile, quickN, thoroughN int, 
 	var hs []*history
 	for i := 0; i < n; i++ {
 		h := genHistoryCase(i, rng.Fork(), prof, 2+rng.Intn(5))
+		h.UseRender = prop == "C05"
 		h.run()
 		hs = append(hs, h)
 	}
@@ -133,6 +134,13 @@ func runC05(o *Options) *Result {
 		for _, s := range h.Steps {
 			if s.Kind != "render" {
 				continue
+			}
+			if s.Altered != "" {
+				res.OracleFails++
+				res.AddViolation(&Violation{Kind: "failing-input", Class: "reuse:returned-bytes-altered",
+					What:   fmt.Sprintf("the bytes Render returned for %q read %q right after the render and %q after the context was used further", s.IC.vc.Src, s.Obs.Out, s.Altered),
+					Replay: histReplay(h, o)})
+				return
 			}
 			if string(s.Obs.Out) != string(s.Fresh.Out) || s.Obs.Err != s.Fresh.Err || s.Obs.Panic != "" {
 				res.OracleFails++
